@@ -33,6 +33,9 @@ FAMILIES = [
     ['10.', '10.0'],
 ]
 DISTINCT = ['-2.7', '-2.71', '-2.6999', '-1.0', '-1.5', '0.05', '0.051', '1.2-4', '1.2-3', '-7.8', '-0.27', '-27.']
+# numerically different densities that agree to 6, 7, 8 … significant digits: they must not share a composition
+NEAR = [('-0.7123456', '-0.7123461'), ('6.40875-2', '6.408751-2'), ('-2.7', '-2.7000001'), ('-2.70000001', '-2.70000002'),
+        ('1.23456789', '1.23456788'), ('-1.0', '-1.000000001'), ('0.05', '0.0500000001'), ('-7.8e0', '-7.80000004')]
 
 
 def plan(tier):
@@ -112,6 +115,8 @@ def run_case(stream, seed, ctx, params):
     d = G.build_flat_deck(rng, macro_p=0.0, ncells=rng.randint(3, 6), depth=rng.randint(2, 4), imp0_p=0.0, use_cc=False)
     fam = rng.choice(FAMILIES)
     pool = [rng.choice(fam) for _ in range(3)] + rng.sample(DISTINCT, 2)
+    if rng.random() < 0.5:
+        pool = pool[1:] + list(rng.choice(NEAR))
     for c in d.cells:
         c.mat = rng.choice([1, 1, 1, 2])
         c.rho = rng.choice(pool)
